@@ -579,6 +579,43 @@ func c08(c *Ctx) {
 			}
 		}
 		okRem := removal != nil && core.InstrGuarded(removal, sameID, nil) == nil
+		if removal != nil && !okRem {
+			// index form: i := slices.IndexFunc(list, func(x) bool { return x.ID() == requester.ID() }); if i >= 0 { cut list[i] }
+			s0 := removal.Call.Args[0].(*ssa.Slice)
+			if ic, ok := core.Unwrap(s0.High).(*ssa.Call); ok && core.CalleeID(ic) == "slices.IndexFunc" && len(ic.Call.Args) == 2 {
+				if mc, ok := ic.Call.Args[1].(*ssa.MakeClosure); ok {
+					pred := mc.Fn.(*ssa.Function)
+					okPred := len(core.Returns(pred)) > 0
+					for _, ret := range core.Returns(pred) {
+						bo, isBo := ret.Results[0].(*ssa.BinOp)
+						if !isBo || bo.Op != token.EQL {
+							okPred = false
+							continue
+						}
+						isIDof := func(v ssa.Value, wantReq bool) bool {
+							cc, ok := v.(*ssa.Call)
+							if !ok || core.CalleeID(cc) != enodeID {
+								return false
+							}
+							isReq := core.AccessPath(cc.Call.Args[0]) == core.AccessPath(req)
+							return isReq == wantReq
+						}
+						if !((isIDof(bo.X, true) && isIDof(bo.Y, false)) || (isIDof(bo.Y, true) && isIDof(bo.X, false))) {
+							okPred = false
+						}
+					}
+					nonNeg := core.AnyFact(func(f core.Fact) bool {
+						return core.CmpFact(f, func(op token.Token, a, c ssa.Value) bool {
+							k, isC := core.ConstInt(c)
+							return a == ssa.Value(ic) && isC && ((op == token.GEQ && k == 0) || (op == token.GTR && k == -1) || (op == token.NEQ && k == -1))
+						})
+					})
+					if okPred && ic.Call.Args[0] == s0.X && core.InstrGuarded(removal, nonNeg, nil) == nil {
+						okRem = true
+					}
+				}
+			}
+		}
 		r.Check(okRem, "R3.order-exclusion", hname+" requester-removed", p.Pos(H.Pos()), "the element whose id equals the requester's is cut out of the list", "the requester's own record is not removed from the closer-peers list")
 		if removal != nil && tc != nil {
 			// what is truncated is the list after removal (phi containing the removal result)
